@@ -3,8 +3,7 @@
    sequence of its declarations [k, e, v]. *)
 EXTENDS ConstExprEnv, Json, CSV, IOUtils
 
-LitsQuick == {2, -3}
-LitsThorough == {0, 2, -3, 7}
+Lits2 == {2, -3}
 
 DumpFile == IF "VERIF_DUMP" \in DOMAIN IOEnv THEN IOEnv.VERIF_DUMP ELSE ""
 
